@@ -317,6 +317,8 @@ def r4(ctx):
 
 @rule("C01", "R5", "TERM", "scalar or per-pair price is broadcast to a length-T vector and only the broadcast value is used", floor=2)
 def r5(ctx):
+    from . import c19
+    ctx.sub(c19.r3)          # ... under JIT as well: no explicit signature coerces the price (a float beta cast to int64) or rejects a per-pair vector
     k = Kernel(ctx.ana)
     fi = k.fi
     if len(k.bdefs) != 1:
